@@ -37,6 +37,7 @@ type ChanObj struct {
 	sendq  []*waitRec
 	// deadline for timer channels (virtual time), nil if not a timer
 	Deadline *smt.Term
+	Fired    bool
 }
 
 type selCase struct {
@@ -267,9 +268,9 @@ func (m *Machine) enabled(t *Thread) bool {
 		if w.check != nil {
 			return w.check()
 		}
-		if w.kind == "chan" && m.timersOn {
+		if w.kind == "chan" {
 			for _, c := range w.cases {
-				if c.ch != nil && c.ch.Timer {
+				if c.ch != nil && c.ch.Timer && c.ch.Fired {
 					return true
 				}
 			}
@@ -353,7 +354,21 @@ func (m *Machine) schedule() *Thread {
 		return nil
 	}
 	if !m.threadsOn {
-		// cooperative: keep running current thread while enabled, else lowest-id enabled thread
+		// cooperative: keep running current thread while enabled, else lowest-id enabled thread; verifYield hands over
+		// to the next enabled thread (round robin)
+		if cur != nil && cur.yielded {
+			cur.yielded = false
+			for _, t := range en {
+				if t.ID > cur.ID {
+					return t
+				}
+			}
+			for _, t := range en {
+				if t != cur {
+					return t
+				}
+			}
+		}
 		if cur != nil && cur.ID >= 0 && m.enabled(cur) {
 			return cur
 		}
@@ -429,8 +444,81 @@ func (m *Machine) run() {
 	}
 }
 
+// fireNextTimer implements the discrete-event step: nothing can run, so virtual time jumps to the earliest pending
+// timer deadline (which timer that is may depend on symbolic durations: fork, with the ordering as path constraint).
+func (m *Machine) fireNextTimer() bool {
+	if !m.timersOn {
+		return false
+	}
+	var pend []*ChanObj
+	for _, ch := range m.timers {
+		if !ch.Fired && m.timerAwaited(ch) {
+			pend = append(pend, ch)
+		}
+	}
+	if len(pend) == 0 {
+		return false
+	}
+	pick := 0
+	if len(pend) > 1 {
+		conds := make([]*smt.Term, len(pend))
+		for i, a := range pend {
+			c := smt.True
+			for j, b := range pend {
+				if i != j {
+					c = smt.And(c, smt.Sle(a.Deadline, b.Deadline))
+				}
+			}
+			conds[i] = c
+		}
+		pick = m.choose(len(pend), conds, false, "next-timer")
+	}
+	ch := pend[pick]
+	// time does not run backwards: if the clock is already past the deadline the timer simply fires now
+	late := smt.Slt(ch.Deadline, m.clock())
+	if !m.branch(late, "timer-late") {
+		m.now = ch.Deadline
+	}
+	ch.Fired = true
+	return true
+}
+
+// timerAwaited reports whether some parked thread is waiting on the timer channel.
+func (m *Machine) timerAwaited(ch *ChanObj) bool {
+	for _, t := range m.threads {
+		if t.State == tBlocked && t.Wait != nil && t.Wait.kind == "chan" && !t.Wait.done {
+			for _, c := range t.Wait.cases {
+				if c.ch == ch {
+					return true
+				}
+			}
+		}
+	}
+	return false
+}
+
+// checkTimers is called whenever virtual time advances: every pending timer whose deadline may have passed fires
+// (forking on the comparison when it is symbolic).
+func (m *Machine) checkTimers() {
+	if !m.timersOn {
+		return
+	}
+	for _, ch := range m.timers {
+		if ch.Fired {
+			continue
+		}
+		passed := smt.Sle(ch.Deadline, m.clock())
+		if m.branch(passed, "timer-passed") {
+			ch.Fired = true
+		}
+	}
+}
+
 // quiescent handles the state where no thread is enabled. Returns true if execution can continue.
 func (m *Machine) quiescent() bool {
+	if m.fireNextTimer() {
+		return true
+	}
 	main := m.threads[0]
 	if main.State == tBlocked && main.Wait != nil && main.Wait.kind == "quiesce" {
 		main.Wait.done = true
@@ -668,7 +756,7 @@ func (m *Machine) caseReady(c selCase) bool {
 		return len(ch.recvq) > 0 || len(ch.Buf) < ch.Cap
 	}
 	if ch.Timer {
-		return m.timersOn
+		return ch.Fired
 	}
 	ch.sendq = pruneWaiters(ch.sendq)
 	return len(ch.Buf) > 0 || ch.Closed || len(ch.sendq) > 0
